@@ -19,6 +19,8 @@ pub enum FTy {
     WT,
     /// bare T, T := V
     T,
+    /// bare T declared `T: dxrt::Kt` (T := V): the only generic field type that can carry `key = ..` / `by = ..`
+    Tk,
 }
 impl FTy {
     pub fn text(self) -> &'static str {
@@ -28,11 +30,11 @@ impl FTy {
             FTy::Pv => "Pv",
             FTy::OptT => "Option<T>",
             FTy::WT => "W<T>",
-            FTy::T => "T",
+            FTy::T | FTy::Tk => "T",
         }
     }
     pub fn generic(self) -> bool {
-        matches!(self, FTy::OptT | FTy::WT | FTy::T)
+        matches!(self, FTy::OptT | FTy::WT | FTy::T | FTy::Tk)
     }
     pub fn total(self) -> bool {
         self != FTy::Pv
@@ -40,7 +42,7 @@ impl FTy {
     /// expression constructing the value from the loop variable `v` (a u8)
     pub fn ctor(self, v: &str) -> String {
         match self {
-            FTy::V | FTy::T => format!("V({v})"),
+            FTy::V | FTy::T | FTy::Tk => format!("V({v})"),
             FTy::U8 => v.to_string(),
             FTy::Pv => format!("Pv({v})"),
             FTy::OptT => format!("(if {v} == 0 {{ None }} else {{ Some(V({v} - 1)) }})"),
@@ -113,8 +115,18 @@ impl TypeSpec {
     pub fn generic(&self) -> bool {
         self.variants.iter().any(|v| v.fields.iter().any(|f| f.ty.generic()))
     }
+    /// the generics as declared on the item and on hand-written impls
+    pub fn decl_generics(&self) -> &'static str {
+        if self.variants.iter().any(|v| v.fields.iter().any(|f| f.ty == FTy::Tk)) {
+            "<T: dxrt::Kt>"
+        } else if self.generic() {
+            "<T>"
+        } else {
+            ""
+        }
+    }
     pub fn item(&self) -> ItemDef {
-        let g = if self.generic() { "<T>" } else { "" };
+        let g = self.decl_generics();
         let fields_of = |v: &VariantSpec| -> FieldsDef {
             let fs: Vec<FieldDef> = v.fields.iter().enumerate().map(|(i, f)| {
                 let mut attrs = combo_attrs_id(&f.combo, self.style, f.form, f.identity);
@@ -301,7 +313,7 @@ fn ref_feed_code(ts: &TypeSpec) -> String {
             Sel::Ignored => None,
             Sel::Default => Some(format!("::core::hash::Hash::hash(&{place}, &mut h);")),
             Sel::Key(at) => {
-                let k = if f.identity == Some(at) { "$".to_string() } else { key_expr(at, ts.style, f.form) }.replace('$', &format!("({place})"));
+                let k = if f.identity == Some(at) { "$".to_string() } else { key_expr(at, ts.style, f.form) }.replace('$', &format!("({place})")).replace(FRAG, "(0 + 1)");
                 Some(format!("::core::hash::Hash::hash(&({k}), &mut h);"))
             }
             Sel::By(at) => Some(format!("{}(&{place}, &mut h);", by_expr(at, ts.style))),
@@ -354,6 +366,7 @@ pub fn refused_by_eq_assertion(ts: &TypeSpec, derived: &[Tr]) -> bool {
 /// Does the in-process expander accept every derived trait?  Err(description) otherwise.
 pub fn expander_accepts(entry: Entry, derived: &[Tr], item: &str) -> Result<(), String> {
     let traits = names(derived);
+    let item = &item.replace(FRAG, "(0 + 1)");
     let (_, al) = expand::expand_aligned(entry, &traits.join(", "), item, &traits)?;
     // (an explicit shared bound(..) does not influence acceptance)
     match al {
@@ -383,15 +396,19 @@ pub fn program(ts: &TypeSpec, derived: &[Tr], entry: Entry) -> String {
         Entry::Derive => format!("#[derive(Ex)]\n#[derive_ex({list})]"),
     };
     let g = if ts.generic() { "<T>" } else { "" };
+    let gd = ts.decl_generics();
     let has = |t: Tr| derived.contains(&t);
     let mut s = String::new();
     s.push_str("use derive_ex::{derive_ex, Ex};\nuse dxrt::{V, Pv, W, RecHasher};\n");
-    match (ts.shared_arg == Some(VIA_MACRO), crate::gen::macroize_helper_attrs(&head, &item.print())) {
+    let printed = item.print();
+    match (ts.shared_arg == Some(VIA_MACRO), crate::gen::macroize_helper_attrs(&head, &printed)) {
+        // a key built around an `expr` fragment: the whole definition is the body of a macro, `$` arrives as a `tt`
+        _ if printed.contains(FRAG) => s.push_str(&format!("macro_rules! mk_frag {{ ($d:tt, $e:expr) => {{\n{head}\n{}\n}} }}\nmk_frag!($, 0 + 1);\n", printed.replace('$', "$d").replace(FRAG, "$e"))),
         (true, Some(m)) => s.push_str(&m),
         _ => {
             s.push_str(&head);
             s.push('\n');
-            s.push_str(&item.print());
+            s.push_str(&printed);
             s.push('\n');
         }
     }
@@ -401,13 +418,13 @@ pub fn program(ts: &TypeSpec, derived: &[Tr], entry: Entry) -> String {
     let need_eq = !has(Eq) && has(Ord);
     let need_po = !has(PartialOrd) && has(Ord);
     if need_pe {
-        s.push_str(&format!("impl{g} ::core::cmp::PartialEq for X{g} {{ fn eq(&self, _: &Self) -> bool {{ false }} }}\n"));
+        s.push_str(&format!("impl{gd} ::core::cmp::PartialEq for X{g} {{ fn eq(&self, _: &Self) -> bool {{ false }} }}\n"));
     }
     if need_eq {
-        s.push_str(&format!("impl{g} ::core::cmp::Eq for X{g} {{}}\n"));
+        s.push_str(&format!("impl{gd} ::core::cmp::Eq for X{g} {{}}\n"));
     }
     if need_po {
-        s.push_str(&format!("impl{g} ::core::cmp::PartialOrd for X{g} {{ fn partial_cmp(&self, _: &Self) -> Option<::core::cmp::Ordering> {{ None }} }}\n"));
+        s.push_str(&format!("impl{gd} ::core::cmp::PartialOrd for X{g} {{ fn partial_cmp(&self, _: &Self) -> Option<::core::cmp::Ordering> {{ None }} }}\n"));
     }
     if has(Hash) {
         s.push_str(&ref_feed_code(ts));
